@@ -8,7 +8,7 @@ for f in *.tla; do
   $J tla2sany.SANY "$f" > "$S/sany.out" 2>&1 || { echo "SANY failed: $f"; tail -20 "$S/sany.out"; rc=2; }
   grep -q "Semantic errors\|Parse Error\|Fatal errors" "$S/sany.out" && { echo "SANY errors: $f"; grep -A5 "rror" "$S/sany.out" | head -20; rc=2; }
 done
-for m in BVSelf ModIntSelf $(cat ../spec/SELF_CHECKS 2>/dev/null); do
+for m in $(ls *Self.cfg | sed "s/\.cfg$//"); do
   [ -f "$m.cfg" ] || continue
   timeout 900 $J tlc2.TLC -workers 16 -metadir "$S/md_$m" -noGenerateSpecTE -config "$m.cfg" "$m.tla" > "$S/$m.out" 2>&1
   if grep -q "Model checking completed. No error has been found." "$S/$m.out"; then
